@@ -55,6 +55,9 @@ def gen_cases(rng, tier):
         yield gp.gen_exact08(rng, tier)
     for _ in range(n_e2e):
         yield gp.gen_e2e08(rng, tier)
+    # the surrogate object through a life cycle (appended: the cases above stay the same for a seed)
+    for _ in range(14 if tier == "quick" else 150):
+        yield gp.gen_gpm08(rng, tier)
 
 
 def corpus():
@@ -77,6 +80,8 @@ def corpus():
 def run_impl(spec):
     if spec["kind"] == "exact08":
         return gp.run_exact08(spec)
+    if spec["kind"] == "gpm08":
+        return gp.run_gpm08(spec)
     return gp.run_e2e08(spec)
 
 
